@@ -76,6 +76,35 @@ CLAIMED.update({
     ),
 })
 
+CLAIMED.update({
+    "C17": (
+        "Coq/Coquelicot proofs on formulas symbolically executed from coulomb.py each run (erf defined as an integral) + integral/interval translation validation",
+        "10 theorems on the terms regenerated from coulomb.py (masked NumPy statements symbolically executed over the r<threshold / r>=threshold "
+        "partition): for all alpha>0, r>0 the s-type function satisfies the radial Poisson equation (rV)'' = -4 pi r rho for its documented "
+        "density (first derivative computed by auto_derive, not typed by hand), the small-r values are the r->0 limits of the main branches, "
+        "unnormalised variants differ by the documented factors (and that factor relates the two densities), superposition, every shipped "
+        "parameter set well-formed (computed). p_poisson is REFUTED on the current code (p_poisson_refuted_lemma; known finding, the test "
+        "suite pins the wrong formula); its positive proof script is kept and was validated against the corrected formula.",
+        "Trusted: Coq kernel; stdlib real axioms; the symbolic executor for coulomb_gaussian_s/p (validated by `integral`+`interval` enclosures "
+        "each run); scipy erf accuracy; partial: r*V -> Q at infinity (needs erf(inf)=1, absent from the libraries) and continuity across "
+        "the 1e-12 switch are checked on the implementation (mpmath oracle) only.",
+        "DESIGN.md section 6 C17",
+    ),
+    "C13": (
+        "Coq proofs (lia/induction/interval) over index maps re-translated from cubic.py each run and hand models of layout/weights/box/closest point + exact correspondence",
+        "36 theorems: flat index <-> coordinates round trips for every 2-D/3-D shape on the definitions regenerated from the source each run; "
+        "layout (point at index = origin + i a1 + j a2 + k a3, last index fastest, skewed axes), tensor weights and separability; weight-sum "
+        "bound for Rectangle/Trapezoid/Alternative for all shapes, Fourier1 factorisation for all shapes and the bound for n_i <= 64 "
+        "(`_partial`, bound in the statement); from_molecule box margins (`_partial` + `box_refuted`), closest_point (`_partial` for positive "
+        "diagonal axes within half a spacing + `closest_refuted`), cube data chunking, tricubic reproduction over a spline oracle, log-variant "
+        "chain rule to order 3; `fourier2_refuted`. Hand models tied by exact integer/rational correspondence; six known findings re-derived each run.",
+        "Trusted: Coq kernel+vm_compute; stdlib real/classical axioms and primitive-float axioms (Interval) for the Fourier1 bounds; index-map "
+        "translator (validated exhaustively on small shapes); 1-D spline oracle (validated on cubics against scipy each run); the decimal "
+        "cube-file codec, interpolation beyond the oracle, Fourier1 for n>64 and log-variant order>3 are covered by sweeps only (partial).",
+        "DESIGN.md section 6 C13",
+    ),
+})
+
 NOT_YET = {
     # pid: reason (kept current; a property moves to CLAIMED once its check is green on the unchanged tree)
 }
